@@ -279,3 +279,25 @@ mod tests {
         assert_eq!(result.len(), 1);
     }
 }
+
+#[cfg(feature = "itree_verif")]
+impl<R, E: Expiration, V: ExpiredVal<E>> SegExpTree<R, E, V>
+where
+    i64: From<R>,
+{
+    /// Per place, the stored copies in buffer order as (value, mask).
+    pub fn verif_state(&self) -> Vec<Vec<(V, u64)>> {
+        self.chunks
+            .iter()
+            .map(|c| c.buffer.iter().map(|e| (e.val, e.mask)).collect())
+            .collect()
+    }
+}
+
+#[cfg(feature = "itree_verif")]
+impl<R, E, V> SegExpTree<R, E, V> {
+    /// (min, max, scale) of the coordinate layout.
+    pub fn verif_layout(&self) -> (i64, i64, u32) {
+        self.layout.verif_fields()
+    }
+}
